@@ -601,6 +601,69 @@ fn check(case: &Case, acc: &mut Acc) {
     }
 }
 
+/// Actions under a negation, behind a test that fails, inside explicit groups: whatever the
+/// policy writes to a port it writes while holding that port's mutex, and it writes nothing the
+/// expression does not write (a print added by mistake sits outside the printers' locking).
+fn negated_programs() -> Acc {
+    let mut acc = Acc::new();
+    let nomatch = || Expr::Test(Test::Name("zzz-no-such-file".into()));
+    let mut actions = plain_actions();
+    actions.extend(framed_actions());
+    actions.push(Action::Quit);
+    for a in &actions {
+        let a = Expr::Action(a.clone());
+        let trees = [
+            Expr::not(a.clone()),
+            Expr::not(Expr::and(nomatch(), a.clone())),
+            Expr::not(Expr::prec(Expr::and(Expr::Test(Test::Name("p*".into())), a.clone()))),
+            Expr::or(Expr::not(Expr::and(nomatch(), a.clone())), Expr::Test(Test::False)),
+            Expr::and(Expr::not(Expr::not(a.clone())), Expr::not(a.clone())),
+            Expr::prec(Expr::not(Expr::list(nomatch(), a.clone()))),
+        ];
+        for tree in trees {
+            acc.states += 1;
+            acc.transitions += 1;
+            let Some(real) = conv::expr_to_real(&tree) else { continue };
+            let wit = json!({"kind": "c16-negated", "tree": tree});
+            let (text, _io) = match compile_render(&real, &subject::options(false, None), "/dev") {
+                C::Ok(v) => v,
+                C::Err(_) => continue,
+                C::Panic(p) => {
+                    acc.violate(Violation::new(format!("C16:panic:{}", panic_site(&p)), format!("{}: {p}", tree.show()), wit));
+                    continue;
+                }
+            };
+            let recs = vec![thread_record(0), thread_record(1)];
+            match crate::prog::run(&text, &recs) {
+                Ok(out) => {
+                    acc.validated += 1;
+                    if let Some((port, t)) = out.unguarded.first() {
+                        acc.violate(Violation::new(
+                            "C16:write-outside-the-port-mutex",
+                            format!("{}: the policy writes {t:?} to port {port} without holding its mutex (records of two scanner threads can interleave there)", tree.show()),
+                            wit.clone(),
+                        ));
+                    }
+                    // nothing may be written that the expression does not write
+                    for (i, r) in recs.iter().enumerate() {
+                        let wrote: usize = out.writes.iter().filter(|w| w.0 == i).count();
+                        let expected = spec_eval::eval(&tree, r, 1_700_000_000).map(|e| e.events.len()).unwrap_or(usize::MAX);
+                        if expected == 0 && wrote > 0 {
+                            acc.violate(Violation::new(
+                                "C16:write-the-expression-does-not-make",
+                                format!("{} on file {:?}: the expression writes nothing, the policy wrote {:?}", tree.show(), r.name, out.writes.iter().filter(|w| w.0 == i).map(|w| w.2.clone()).collect::<Vec<_>>()),
+                                wit.clone(),
+                            ));
+                        }
+                    }
+                }
+                Err(e) => acc.violate(Violation::new("C16:policy-runtime-failure", format!("{}: {e}", tree.show()), wit)),
+            }
+        }
+    }
+    acc
+}
+
 fn cases(tier: Tier) -> Vec<Case> {
     let mut progs: Vec<Vec<Action>> = vec![];
     for menu in [plain_actions(), framed_actions()] {
@@ -719,6 +782,7 @@ pub fn run(ctx: &Ctx) -> i32 {
             Err(_) => acc.violate(Violation::new("C16:engine-crashed", format!("{} with {} threads", show(&c.items), c.threads), json!({"kind": "c16", "actions": c.items, "threads": c.threads}))),
         }
     });
+    let acc = acc.merge(negated_programs());
     // the first action far below the root (4095..5000 operator levels), the others near it:
     // the choice between plain and framed output must still see it (model only, big stack)
     let mut acc = acc;
@@ -767,6 +831,9 @@ pub fn run(ctx: &Ctx) -> i32 {
 
 pub fn replay(w: &Value) -> Vec<Violation> {
     let mut acc = Acc::new();
+    if w["kind"] == "c16-negated" {
+        return negated_programs().violations.into_values().map(|(v, _)| v).collect();
+    }
     if let Ok(items) = serde_json::from_value::<Vec<Action>>(w["actions"].clone()) {
         let threads = w["threads"].as_u64().unwrap_or(2) as usize;
         let prefix = w["prefix"].as_u64().unwrap_or(0) as usize;
